@@ -14,11 +14,26 @@ static MAXREQ: AtomicUsize = AtomicUsize::new(0);
 /// journal slot for "huge allocation" (points into the mmap'd journal, or null)
 pub static HUGE_SLOT: AtomicPtr<u64> = AtomicPtr::new(std::ptr::null_mut());
 
+/// > 0 while the harness itself allocates for its own bookkeeping (event traces): not charged to the case
+static EXEMPT: AtomicUsize = AtomicUsize::new(0);
+
+/// run harness bookkeeping whose allocations must not count as the code under test's
+pub fn exempt<T>(f: impl FnOnce() -> T) -> T {
+    EXEMPT.fetch_add(1, Relaxed);
+    let r = f();
+    EXEMPT.fetch_sub(1, Relaxed);
+    r
+}
+
 pub const HUGE: usize = 1 << 29;
 pub const EXIT_HUGE: i32 = 86;
 
 #[inline]
 fn on_alloc(size: usize) {
+    if EXEMPT.load(Relaxed) > 0 {
+        LIVE.fetch_add(size, Relaxed);
+        return;
+    }
     if size > MAXREQ.load(Relaxed) {
         MAXREQ.store(size, Relaxed);
     }
@@ -54,10 +69,10 @@ unsafe impl GlobalAlloc for Counting {
         if new > l.size() {
             on_alloc(new - l.size());
             // the request itself is for `new` bytes
-            if new > MAXREQ.load(Relaxed) {
+            if EXEMPT.load(Relaxed) == 0 && new > MAXREQ.load(Relaxed) {
                 MAXREQ.store(new, Relaxed);
             }
-            if new >= HUGE {
+            if new >= HUGE && EXEMPT.load(Relaxed) == 0 {
                 on_alloc(new);
             }
         } else {
